@@ -14,6 +14,8 @@ CHECKS = {
          "real-arithmetic reading of float64; scipy.stats logpdfs replaced by documented closed forms; reference densities written from docstrings; concrete matrices from a small-integer family"),
  'C01': ("for the model graphs a-d (Gaussian/GMRF/LMRF/Gamma factors, linear models, hyper-parameters through one- and two-argument callables) and every DAG on <=3 (quick) / <=4 (thorough) uninterpreted factors: every subset of variables fixed, in every ordered partition into <=2/3 conditioning calls, by keyword or position, evaluates to joint.logd(complete assignment) for ALL values; stacked / posterior / multiple-likelihood / BayesianProblem views agree; malformed evaluations raise",
          "real-arithmetic reading of float64; values boxed to |v|<=64 where float constants occur (tolerance 1e-9); a reduced single density refusing a further conditioning call counts as a refusal, not as a violation"),
+ 'C05': ("affine families (Gaussian in all 4 forms x scalar/vector/diagonal/dense/upper/lower, below and above the sparse switch; GMRF zero/neumann; Lognormal through exp): for ALL standard-normal draws e and parameters, sqrtprec (s - mean) = e for the object's OWN sqrtprec (so the draws have the covariance the log-density uses); library-parameterised families (Normal, Gamma, InverseGamma, Beta, Laplace, Uniform, Cauchy): the density denoted by the logged generator call equals the object's own density (log-ratio identity at two symbolic points), columns are the library's draws; with rng given every draw comes from rng and none from the global state; N=1 -> CUQIarray with the geometry, N>1 -> Samples with N columns; conditional distributions refuse before any draw",
+         "numpy/scipy generators taken by their documented parameterisation; GMRF periodic (complex DFT) and ModifiedHalfNormal rejection loops are outside the claim; statistical agreement beyond these algebraic facts is not decided"),
  'C06': ("LinearRTO (both interfaces, matrix- and function-backed models 3x2/2x3/2x2, 1-2 likelihoods, noise and prior in every Gaussian input form incl. GMRF priors, the 5-tuple form) and UGLA (both interfaces): with the inner solver replaced by its contract, for ALL data, prior means, perturbations, current states and probe vectors: the stacked operator's adjoint is its exact transpose, M^T M = sum A^T Lambda A + Lambda_0 (UGLA: D^T W(x_k) D / scale), the right-hand side handed to the solver satisfies M^T rhs = posterior-mean rhs + M^T e, the solver starts from the current state and the new state is its solution",
          "CGLS is a contract stub here (its own property is C16); behaviour with a non-converged inner solver (finite maxit) is outside the claim; concrete small-integer forward matrices, symbolic spreads"),
  'C07': ("for matrix-/sparse-/function-backed linear models with every listed geometry and for the Deconvolution1D (all PSFs, size parities, 5 BCs, legacy), Deconvolution2D (PSF 2x2..4x4, 5 BCs) and Abel1D models at small sizes: <Ax,y> = <x,A*y> for ALL x,y (bilinear SMT identity / 1e-9 over a box), get_matrix()@x = forward(x), T swaps forward/adjoint, T.T = A",
